@@ -4,6 +4,7 @@
 //! The harness reports verdicts and the run-time error class; StaticOK and the set of lifecycle
 //! error classes come from TLA+.
 use rand::prelude::*;
+use radix_transactions::manifest::*;
 use scrypto_test::prelude::*;
 use serde_json::{json, Value as J};
 use vh::util::*;
@@ -111,7 +112,8 @@ fn outcome(receipt: &TransactionReceipt) -> (String, String) {
         },
         TransactionResult::Reject(r) => {
             let s = format!("{:?}", r.reason);
-            (format!("reject:{}", lifecycle_class(&s)), s.chars().take(200).collect())
+            let c = lifecycle_class(&s);
+            (if c == "other" { "rejected".to_string() } else { c }, s.chars().take(200).collect())
         }
         TransactionResult::Abort(a) => ("abort".to_string(), format!("{:?}", a.reason).chars().take(200).collect()),
     }
@@ -213,6 +215,11 @@ pub fn eval(w: &mut World, m: &J) -> J {
             let run = if st["all"] == "ok" {
                 let mut all = prefix.clone();
                 all.extend(ins.iter().cloned());
+                // a transaction is only well-structured if every declared child is yielded to (TransactionValidator
+                // checks that, the manifest interpreter does not): do it after the manifest under test if it did not
+                if nc > 0 && !abstract_ins.iter().any(|i| i["op"] == "yield_child") {
+                    all.push(YieldToChild { child_index: ManifestNamedIntentIndex(0), args: manifest_args!().into() }.into());
+                }
                 all.extend(suffix.iter().cloned());
                 let exec = TransactionManifestV2 { instructions: all, blobs, children, object_names: Default::default() };
                 match catch(|| {
@@ -233,7 +240,10 @@ pub fn eval(w: &mut World, m: &J) -> J {
             let children: IndexSet<ChildSubintentSpecifier> = grand.iter().map(|h| ChildSubintentSpecifier { hash: *h }).collect();
             let manifest = SubintentManifestV2 { instructions: ins.clone(), blobs: blobs.clone(), children: children.clone(), object_names: Default::default() };
             let st = verdicts(&manifest);
-            let run = if st["all"] == "ok" {
+            let run = if st["all"] == "ok" && nc > 0 && !abstract_ins.iter().any(|i| i["op"] == "yield_child") {
+                // a declared child that is never yielded to is refused by the TransactionValidator: not a runnable transaction
+                json!({"cls": "not-run", "err": "declared child never used"})
+            } else if st["all"] == "ok" {
                 let yields = abstract_ins.iter().filter(|i| i["op"] == "yield_parent").count();
                 match catch(|| {
                     let mut b = TestTransaction::new_v2_builder(n as u32);
@@ -305,9 +315,12 @@ fn replay() {
                 mm(&mut out, &mut counts, i, &format!("info: static validation ({}) rejects a well-formed manifest", rules), json!("ok"), r["static"].clone(), false);
             }
             if accepted {
-                let cls = r["run"]["cls"].as_str().unwrap().trim_start_matches("reject:").to_string();
+                let cls = r["run"]["cls"].as_str().unwrap().to_string();
                 *counts.entry(format!("run:{}", r["run"]["cls"].as_str().unwrap())).or_insert(0) += 1;
-                if c[lerr_key].as_array().unwrap().iter().any(|x| x == &json!(cls)) || cls == "panic" {
+                if cls == "panic" {
+                    mm(&mut out, &mut counts, i, "panic at run time", json!("no panic"), r["run"].clone(), true);
+                }
+                if c[lerr_key].as_array().unwrap().iter().any(|x| x == &json!(cls)) {
                     mm(&mut out, &mut counts, i, &format!("accepted manifest ({}) fails at run time with an id-lifecycle error", rules), json!("no lifecycle error"), r["run"].clone(), true);
                 }
             }
@@ -330,6 +343,7 @@ fn gen_manifest(rng: &mut StdRng) -> J {
     // tracked state so that most instructions are well-formed
     let mut live_b: Vec<u32> = vec![];
     let mut nb = 0u32;
+    #[allow(unused_assignments)]
     let mut live_p: Vec<(u32, i64)> = vec![]; // (proof, source bucket or -1)
     let mut np = 0u32;
     let mut live_r: Vec<u32> = (0..pre as u32).collect();
@@ -338,36 +352,38 @@ fn gen_manifest(rng: &mut StdRng) -> J {
     let mut ins: Vec<J> = vec![];
     let fault = rng.gen_bool(0.45);
     let fault_at = rng.gen_range(0..len);
-    for step in 0..len {
+    let mut step = 0;
+    while step < len {
         let inject = fault && step == fault_at;
+        step += 1;
         let unlocked: Vec<u32> = live_b.iter().cloned().filter(|b| !live_p.iter().any(|(_, s)| *s == *b as i64)).collect();
-        let pick = |rng: &mut StdRng, v: &Vec<u32>, n: u32, inject: bool| -> u32 {
-            if inject || v.is_empty() { rng.gen_range(0..n + 2) } else { v[rng.gen_range(0..v.len())] }
+        let lp: Vec<u32> = live_p.iter().map(|x| x.0).collect();
+        // a wrong id: unknown, or known but already consumed
+        let wrong = |rng: &mut StdRng, live: &Vec<u32>, n: u32| -> u32 {
+            let dead: Vec<u32> = (0..n).filter(|x| !live.contains(x)).collect();
+            if !dead.is_empty() && rng.gen_bool(0.6) { dead[rng.gen_range(0..dead.len())] } else { n + rng.gen_range(0..2) }
         };
         let choice = rng.gen_range(0..if v2 { 17 } else { 13 });
         let i = match choice {
-            0 | 1 => { live_b.push(nb); nb += 1; json!({"op": "take"}) }
-            2 => {
-                let b = if inject { pick(rng, &live_b, nb, true) } else { pick(rng, &unlocked, nb, unlocked.is_empty()) };
+            2 if inject || !unlocked.is_empty() => {
+                let b = if inject { if !live_b.is_empty() && live_b.len() > unlocked.len() && rng.gen_bool(0.5) { *live_b.iter().find(|b| !unlocked.contains(b)).unwrap() } else { wrong(rng, &live_b, nb) } } else { unlocked[rng.gen_range(0..unlocked.len())] };
                 live_b.retain(|x| *x != b);
                 json!({"op": if rng.gen_bool(0.8) { "return" } else { "burn" }, "b": b})
             }
-            3 => {
-                let b = pick(rng, &live_b, nb, inject);
+            3 if inject || !live_b.is_empty() => {
+                let b = if inject { wrong(rng, &live_b, nb) } else { live_b[rng.gen_range(0..live_b.len())] };
                 if live_b.contains(&b) { live_p.push((np, b as i64)); }
                 np += 1;
                 json!({"op": "proof_b", "b": b})
             }
             4 => { live_p.push((np, -1)); np += 1; json!({"op": if rng.gen_bool(0.5) { "pop" } else { "proof_az" }}) }
-            5 => {
-                let lp: Vec<u32> = live_p.iter().map(|x| x.0).collect();
-                let p = pick(rng, &lp, np, inject);
+            5 if inject || !lp.is_empty() => {
+                let p = if inject { wrong(rng, &lp, np) } else { lp[rng.gen_range(0..lp.len())] };
                 live_p.retain(|x| x.0 != p);
                 json!({"op": if rng.gen_bool(0.5) { "drop" } else { "push" }, "p": p})
             }
-            6 => {
-                let lp: Vec<u32> = live_p.iter().map(|x| x.0).collect();
-                let p = pick(rng, &lp, np, inject);
+            6 if inject || !lp.is_empty() => {
+                let p = if inject { wrong(rng, &lp, np) } else { lp[rng.gen_range(0..lp.len())] };
                 if let Some(src) = live_p.iter().find(|x| x.0 == p).map(|x| x.1) { live_p.push((np, src)); }
                 np += 1;
                 json!({"op": "clone", "p": p})
@@ -375,38 +391,51 @@ fn gen_manifest(rng: &mut StdRng) -> J {
             7 => { live_p.clear(); json!({"op": if rng.gen_bool(0.6) { "drop_all" } else { "drop_named" }}) }
             8 => { live_r.push(nr); nr += 1; na += 1; json!({"op": "alloc"}) }
             9 | 10 => {
-                // deposit some buckets
                 let mut bs = vec![];
                 for b in unlocked.iter() { if rng.gen_bool(0.6) { bs.push(*b); } }
-                if inject { bs.push(rng.gen_range(0..nb + 2)); if rng.gen_bool(0.3) && !bs.is_empty() { bs.push(bs[0]); } }
+                if inject { if !bs.is_empty() && rng.gen_bool(0.3) { bs.push(bs[0]); } else { bs.push(wrong(rng, &unlocked, nb)); } }
                 live_b.retain(|x| !bs.contains(x));
                 json!({"op": "call", "tgt": -1, "bs": bs, "ps": [], "rs": [], "as": [], "blob": 0})
             }
-            11 => {
-                let r = pick(rng, &live_r, nr, inject);
+            11 if inject || !live_r.is_empty() => {
+                let r = if inject { wrong(rng, &live_r, nr) } else { live_r[rng.gen_range(0..live_r.len())] };
                 live_r.retain(|x| *x != r);
                 json!({"op": "call", "tgt": -1, "bs": [], "ps": [], "rs": [r], "as": [], "blob": 0})
             }
             12 => {
-                let lp: Vec<u32> = live_p.iter().map(|x| x.0).collect();
-                let with_proof = !lp.is_empty() && rng.gen_bool(0.4);
-                let ps = if with_proof { vec![lp[0]] } else { vec![] };
+                let ps = if !lp.is_empty() && rng.gen_bool(0.4) { vec![lp[0]] } else { vec![] };
                 live_p.retain(|x| !ps.contains(&x.0));
-                let named = if na > 0 && rng.gen_bool(0.4) || inject { vec![rng.gen_range(0..na + 1)] } else { vec![] };
-                let tgt: i64 = if rng.gen_bool(0.15) { rng.gen_range(0..na + 1) as i64 } else { -1 };
-                json!({"op": "call", "tgt": tgt, "bs": [], "ps": ps, "rs": [], "as": named, "blob": [0, 0, 1, 2][rng.gen_range(0..4)]})
+                let named = if inject && rng.gen_bool(0.5) { vec![na + rng.gen_range(0..2)] } else if na > 0 && rng.gen_bool(0.4) { vec![rng.gen_range(0..na)] } else { vec![] };
+                let tgt: i64 = if inject && rng.gen_bool(0.3) { na as i64 } else if na > 0 && rng.gen_bool(0.15) { rng.gen_range(0..na) as i64 } else { -1 };
+                let blob = if inject && rng.gen_bool(0.4) { 2 } else { [0, 0, 1][rng.gen_range(0..3)] };
+                json!({"op": "call", "tgt": tgt, "bs": [], "ps": ps, "rs": [], "as": named, "blob": blob})
             }
-            13 => json!({"op": "assert_next"}),
-            14 => { let b = pick(rng, &live_b, nb, inject); json!({"op": "assert_bucket", "b": b}) }
-            15 => {
+            13 => {
+                ins.push(json!({"op": "assert_next"}));
+                if inject { json!({"op": "take"}) } else { json!({"op": "call", "tgt": -1, "bs": [], "ps": [], "rs": [], "as": [], "blob": 0}) }
+            }
+            14 if inject || !live_b.is_empty() => {
+                let b = if inject { wrong(rng, &live_b, nb) } else { live_b[rng.gen_range(0..live_b.len())] };
+                json!({"op": "assert_bucket", "b": b})
+            }
+            15 if inject || kind == "sub" || nc > 0 => {
                 let mut bs = vec![];
                 for b in unlocked.iter() { if rng.gen_bool(0.5) { bs.push(*b); } }
                 live_b.retain(|x| !bs.contains(x));
-                let ps: Vec<u32> = if inject && !live_p.is_empty() { vec![live_p[0].0] } else { vec![] };
-                if rng.gen_bool(0.5) { json!({"op": "yield_parent", "bs": bs, "ps": ps}) } else { json!({"op": "yield_child", "child": rng.gen_range(0..2), "bs": bs, "ps": ps}) }
+                let ps: Vec<u32> = if inject && !lp.is_empty() && rng.gen_bool(0.5) { vec![lp[0]] } else { vec![] };
+                let to_parent = if inject { rng.gen_bool(0.5) } else { kind == "sub" && (nc == 0 || rng.gen_bool(0.5)) };
+                if to_parent { json!({"op": "yield_parent", "bs": bs, "ps": ps}) } else { json!({"op": "yield_child", "child": if inject && rng.gen_bool(0.5) { nc } else { 0 }, "bs": bs, "ps": ps}) }
             }
-            _ => json!({"op": "verify_parent"}),
+            16 if inject || kind == "sub" => json!({"op": "verify_parent"}),
+            _ => { live_b.push(nb); nb += 1; if inject { ins.push(json!({"op": "return", "b": wrong(rng, &live_b, nb)})); } json!({"op": "take"}) }
         };
+        if i["op"] == "take" && ins.last().map(|x| x["op"] == "return").unwrap_or(false) && inject {
+            // keep creation order consistent: the injected wrong return came after this take was counted
+            let bad = ins.pop().unwrap();
+            ins.push(i);
+            ins.push(bad);
+            continue;
+        }
         ins.push(i);
     }
     // mostly tidy endings: drop proofs, deposit what is left, use the reservations, end subintents properly
